@@ -89,6 +89,13 @@ func ssaWrite(n int, g ssax.Truth) ssaEvent {
 	ev.D.Norm()
 	ev.Post.Norm()
 	s := ssax.Build(g, p)
+	if n%4 == 3 {
+		// a map entry without a style (the WebVTT and TTML writers skip those): it denotes nothing
+		if s.Styles == nil {
+			s.Styles = map[string]*astisub.Style{}
+		}
+		s.Styles["absent"] = nil
+	}
 	var buf, buf2 bytes.Buffer
 	var err error
 	ev.Res, ev.Msg = run.Guard(10*time.Second, func() { err = s.WriteToSSA(&buf) })
